@@ -53,6 +53,7 @@ std::string plan_to_text(const Plan& p) {
   snprintf(b, sizeof b, "env %" PRIu64 "\nseed %" PRIu64 " run %" PRIu64 "\nntasks %d\ncheck_model %d\nsched_seed %" PRIu64 "\n",
            p.env, p.seed, p.run, p.ntasks, p.check_model, p.sched_seed);
   s += b;
+  if (p.variant) { snprintf(b, sizeof b, "variant %d\n", p.variant); s += b; }
   if (!p.expect.empty()) s += "expect " + p.expect + "\n";
   if (!p.note.empty()) s += "note " + p.note + "\n";
   for (const Op& o : p.ops) {
@@ -73,7 +74,7 @@ std::string plan_to_text(const Plan& p) {
     s += "\n";
   }
   for (const Fault& f : p.faults) { snprintf(b, sizeof b, "fault op=%d alloc=%" PRId64 " kind=%d\n", f.op, f.alloc, f.kind); s += b; }
-  for (const Seg& g : p.sched) { snprintf(b, sizeof b, "seg t=%d q=%" PRIu64 "\n", g.task, g.quantum); s += b; }
+  for (const Seg& g : p.sched) { if (g.watch) snprintf(b, sizeof b, "seg t=%d q=%" PRIu64 " w=%u\n", g.task, g.quantum, g.watch); else snprintf(b, sizeof b, "seg t=%d q=%" PRIu64 "\n", g.task, g.quantum); s += b; }
   return s;
 }
 
@@ -128,6 +129,7 @@ bool plan_from_text(const std::string& text, Plan& p, std::string& err) {
     else if (w == "ntasks") ls >> p.ntasks;
     else if (w == "check_model") ls >> p.check_model;
     else if (w == "sched_seed") ls >> p.sched_seed;
+    else if (w == "variant") ls >> p.variant;
     else if (w == "expect") { std::getline(ls, p.expect); while (!p.expect.empty() && p.expect[0] == ' ') p.expect.erase(0, 1); }
     else if (w == "note") { std::getline(ls, p.note); while (!p.note.empty() && p.note[0] == ' ') p.note.erase(0, 1); }
     else if (w == "op") {
@@ -162,7 +164,7 @@ bool plan_from_text(const std::string& text, Plan& p, std::string& err) {
       while (ls >> kv) {
         size_t eq = kv.find('='); if (eq == std::string::npos) continue;
         std::string k = kv.substr(0, eq); const char* v = kv.c_str() + eq + 1;
-        if (k == "t") g.task = atoi(v); else if (k == "q") g.quantum = strtoull(v, nullptr, 10);
+        if (k == "t") g.task = atoi(v); else if (k == "q") g.quantum = strtoull(v, nullptr, 10); else if (k == "w") g.watch = (uint32_t)strtoul(v, nullptr, 10);
       }
       p.sched.push_back(g);
     }
